@@ -6,7 +6,7 @@
 (* here is Valid (checked by the ASSUME at the end) unless the family says   *)
 (* otherwise.                                                                *)
 (***************************************************************************)
-EXTENDS Decl, ModelDecls, SequencesExt, Json, IOUtils, TLC
+EXTENDS Decl, BitEnum, ModelDecls, SequencesExt, Json, IOUtils, TLC
 
 Native == {8, 16, 32, 64, 128}
 Sto(n) == StorageOf(n)
@@ -38,16 +38,17 @@ QStar == [k \in 1..Cardinality(StarBases) |->
 ---------------------------------------------------------------------------
 (* standard enums: discriminants given as bit sets so that any width works  *)
 AsSeq(S) == SetToSeq(S)
+V(nm, d) == [name |-> nm, d |-> d, cfg |-> "none", form |-> "lit"]
 EnumNonExh(nm, n) ==
   [name |-> nm, n |-> n, exh |-> "false",
-   variants |-> IF n = 1 THEN << [name |-> "Z", d |-> <<>>] >>
-                ELSE << [name |-> "Z", d |-> <<>>], [name |-> "One", d |-> <<0>>],
-                        [name |-> "Top", d |-> <<n - 1>>], [name |-> "Ones", d |-> [k \in 1..n |-> k - 1]] >>]
+   variants |-> IF n = 1 THEN << V("Z", <<>>) >>
+                ELSE IF n = 2 THEN << V("Z", <<>>), V("One", <<0>>), V("Ones", <<0, 1>>) >>
+                ELSE << V("Z", <<>>), V("One", <<0>>), V("Top", <<n - 1>>), V("Ones", [k \in 1..n |-> k - 1]) >>]
 (* all 2^n values, n <= 4, declared in a shuffled (descending) order *)
 BitsOfN(x, w) == {k \in 0..(w - 1) : (x \div 2^k) % 2 = 1}
 EnumExh(nm, n) ==
   [name |-> nm, n |-> n, exh |-> "true",
-   variants |-> [k \in 1..(2^n) |-> [name |-> Name("V", 2^n - k), d |-> AsSeq(BitsOfN(2^n - k, n))]]]
+   variants |-> [k \in 1..(2^n) |-> V(Name("V", 2^n - k), AsSeq(BitsOfN(2^n - k, n)))]]
 
 ---------------------------------------------------------------------------
 (* Q-arr: arrays (C03)                                                       *)
@@ -103,6 +104,13 @@ QNcFixed == <<
                                   L(<< <<127, 127>>, <<64, 64>>, <<63, 63>>, <<0, 0>> >>), L(<< <<100, 126>>, <<1, 70>> >>),
                                   LS(<< <<120, 123>>, <<60, 63>> >>), LA(<< <<0, 7>>, <<64, 71>> >>, 8, 8),
                                   LSA(<< <<0, 15>>, <<64, 79>> >>, 3, 16), LS(<< <<65, 127>>, <<0, 0>> >>) >>), <<>>, <<>>, FALSE),
+  (* ascending, back-to-back lists that together cover the whole base (a merged list must not hit the full-width special case) *)
+  MkDecl(8, <<>>, NameFields(<< L(<< <<0, 3>>, <<4, 7>> >>), L([k \in 1..8 |-> <<k - 1, k - 1>>]), LS(<< <<0, 0>>, <<1, 7>> >>),
+                                L(<< <<0, 6>>, <<7, 7>> >>) >>), <<>>, <<>>, FALSE),
+  MkDecl(16, <<>>, NameFields(<< L(<< <<0, 7>>, <<8, 15>> >>), LS(<< <<0, 7>>, <<8, 15>> >>), L(<< <<0, 3>>, <<4, 7>>, <<8, 15>> >>) >>), <<>>, <<>>, FALSE),
+  MkDecl(32, <<>>, NameFields(<< L(<< <<0, 15>>, <<16, 31>> >>), LS(<< <<0, 15>>, <<16, 31>> >>), L(<< <<0, 7>>, <<8, 15>> >>) >>), <<>>, <<>>, FALSE),
+  MkDecl(64, <<>>, NameFields(<< L(<< <<0, 31>>, <<32, 63>> >>), LS(<< <<0, 0>>, <<1, 63>> >>) >>), <<>>, <<>>, FALSE),
+  MkDecl(128, <<>>, NameFields(<< L(<< <<0, 63>>, <<64, 127>> >>), LS(<< <<0, 63>>, <<64, 127>> >>), L(<< <<0, 31>>, <<32, 63>> >>) >>), <<>>, <<>>, FALSE),
   MkDecl(100, <<>>, NameFields(<< L(<< <<64, 99>>, <<0, 63>> >>), LS(<< <<92, 99>>, <<0, 7>>, <<40, 55>> >>), L(<< <<99, 99>>, <<0, 0>> >>),
                                   LA(<< <<0, 1>>, <<50, 51>> >>, 25, 2) >>), <<>>, <<>>, FALSE)
   >>
@@ -119,7 +127,9 @@ CustDecl(W, w) ==
                     \/ k = "optenum" /\ ty = 1
                     \/ k = "enum" /\ ty = 2 /\ w <= 3
                     \/ k = KindOfW(w) /\ ty = 0 }})        \* sibling unsigned field aliasing the same bits
-      arrs == IF 2 * w <= W THEN <<Fld("f", "optenum", w, 1, << <<0, w - 1>> >>, FALSE, <<2>>, <<>>, "rw")>> ELSE <<>>
+      arrs == (IF 2 * w <= W THEN <<Fld("f", "optenum", w, 1, << <<0, w - 1>> >>, FALSE, <<2>>, <<>>, "rw")>> ELSE <<>>)
+              \o (IF 2 * w < W THEN <<Fld("f", "optenum", w, 1, << <<W - 2 * w, W - w - 1>> >>, FALSE, <<2>>, <<>>, "rw")>> ELSE <<>>)
+              \o (IF 2 * w + 3 < W THEN <<Fld("f", "optenum", w, 1, << <<1, w>> >>, FALSE, <<2>>, <<w + 1>>, "rw")>> ELSE <<>>)
       nc   == IF w >= 2 /\ w + 1 <= W
               THEN <<Fld("f", "optenum", w, 1, << <<W - 1, W - 1>>, <<0, w - 2>> >>, TRUE, <<>>, <<>>, "rw")>> ELSE <<>>
   IN MkDecl(W, <<>>, NameFields(scal \o arrs \o nc), en, <<>>, FALSE)
@@ -127,7 +137,9 @@ NestDecl(W, w) ==
   MkDecl(W, <<>>, NameFields(SetToSeq({Fld("f", k, w, ty, << <<lo, lo + w - 1>> >>, FALSE, <<>>, <<>>, "rw") :
              <<k, ty, lo>> \in {<<k, ty, lo>> \in {"nested", "uarb", "unat"} \X {0, 1} \X Places(W, w) :
                   (k = "nested" /\ ty = 1) \/ (k = KindOfW(w) /\ ty = 0)}})
-          \o (IF 2 * w <= W THEN <<Fld("f", "nested", w, 1, << <<0, w - 1>> >>, FALSE, <<2>>, <<>>, "rw")>> ELSE <<>>)),
+          \o (IF 2 * w <= W THEN <<Fld("f", "nested", w, 1, << <<0, w - 1>> >>, FALSE, <<2>>, <<>>, "rw")>> ELSE <<>>)
+          \o (IF 2 * w < W THEN <<Fld("f", "nested", w, 1, << <<W - 2 * w, W - w - 1>> >>, FALSE, <<2>>, <<>>, "rw")>> ELSE <<>>)
+          \o (IF w >= 2 /\ w + 1 <= W THEN <<Fld("f", "nested", w, 1, << <<W - 1, W - 1>>, <<0, w - 2>> >>, TRUE, <<>>, <<>>, "rw")>> ELSE <<>>)),
          <<>>, << [name |-> "Inner", n |-> w] >>, FALSE)
 CustBaseFor(w) == IF w <= 7 THEN {8, 20} ELSE IF w <= 16 THEN {16, 33, 64} ELSE IF w <= 33 THEN {33, 64, 128} ELSE {64, 65, 128}
 QCust == SetToSeq({CustDecl(W, w) : <<W, w>> \in {<<W, w>> \in (1..128) \X CustWidths : W \in CustBaseFor(w) /\ w <= W}})
@@ -173,7 +185,15 @@ QBld == <<
   BldDecl(48, <<AsSeq({47, 40, 1})>>, << Scalar("unat", 32, 8, "rw"), Scalar("inat", 8, 40, "r") >>, <<>>),
   BldDecl(100, <<AsSeq({99, 64, 63, 0})>>, << Scalar("unat", 64, 1, "rw"), LS(<< <<92, 99>>, <<65, 72>> >>), ArrFld("bool", 1, 0, 73, 16, <<>>, "rw") >>, <<>>),
   BldDecl(128, <<AsSeq({127, 0})>>, << ArrFld("uarb", 7, 0, 1, 16, <<>>, "rw"), Scalar("bool", 1, 127, "rw") >>, <<>>),
-  BldDecl(7, <<AsSeq({6})>>, << ArrFld("bool", 1, 0, 0, 6, <<>>, "rw") >>, <<>>)
+  BldDecl(7, <<AsSeq({6, 1, 3})>>, << ArrFld("bool", 1, 0, 0, 6, <<>>, "rw") >>, <<>>),
+  (* default bits INSIDE writable fields and arrays (must be overwritten), and inside a read-only field whose width
+     completes the sum of all field widths to the base width (must be kept) *)
+  BldDecl(8, <<AsSeq({7, 6, 0, 2})>>, << Scalar("uarb", 4, 0, "rw"), Scalar("bool", 1, 4, "w"), Scalar("uarb", 3, 5, "r") >>, <<>>),
+  BldDecl(16, <<AsSeq({15, 13, 12, 9, 6, 1})>>, << ArrFld("uarb", 3, 0, 0, 4, <<>>, "rw"), Scalar("uarb", 4, 12, "r") >>, <<>>),
+  BldDecl(32, <<AsSeq(0..31)>>, << ArrFld("bool", 1, 0, 4, 8, <<2>>, "rw"), Scalar("unat", 8, 24, "r"), Scalar("uarb", 4, 0, "rw"),
+                                   LS(<< <<20, 23>>, <<5, 5>>, <<7, 7>>, <<9, 9>>, <<11, 11>> >>) >>, <<>>),
+  BldDecl(64, <<AsSeq({63, 62, 33, 32, 31, 0})>>, << Scalar("inat", 32, 0, "rw"), ArrFld("bool", 1, 0, 32, 16, <<>>, "w"), Scalar("unat", 16, 48, "r") >>, <<>>),
+  BldDecl(24, <<AsSeq(0..23)>>, << ArrFld("inat", 8, 0, 0, 2, <<>>, "rw"), Scalar("unat", 8, 16, "r") >>, <<>>)
   >>
 
 ---------------------------------------------------------------------------
@@ -198,6 +218,68 @@ QDbg == <<
                 N(Fld("f", "optenum", 1, 1, << <<0, 0>> >>, FALSE, <<>>, <<>>, "rw"), "o1") >>, <<EnumNonExh("O1", 1)>>, <<>>)
   >>
 
+---------------------------------------------------------------------------
+(* Q-acc: every field kind under every access specifier (C17); default 0 so  *)
+(* that a builder is offered and the builder steps can be probed too         *)
+ZeroDef == << <<>> >>
+AccAt(mk(_, _), k) == mk(16 * k, <<"r", "w", "rw", "none">>[k + 1])
+AccDecl(mk(_, _), enums, nested) ==
+  MkDecl(64, ZeroDef, NameFields([k \in 1..4 |-> AccAt(mk, k - 1)]), enums, nested, FALSE)
+QAcc == <<
+  AccDecl(LAMBDA lo, a : Scalar("bool", 1, lo, a), <<>>, <<>>),
+  AccDecl(LAMBDA lo, a : Scalar("uarb", 5, lo, a), <<>>, <<>>),
+  AccDecl(LAMBDA lo, a : Scalar("unat", 16, lo, a), <<>>, <<>>),
+  AccDecl(LAMBDA lo, a : Scalar("inat", 8, lo + 3, a), <<>>, <<>>),
+  AccDecl(LAMBDA lo, a : Fld("f", "enum", 2, 1, << <<lo, lo + 1>> >>, FALSE, <<>>, <<>>, a), <<EnumExh("E2", 2)>>, <<>>),
+  AccDecl(LAMBDA lo, a : Fld("f", "optenum", 3, 1, << <<lo, lo + 2>> >>, FALSE, <<>>, <<>>, a), <<EnumNonExh("O3", 3)>>, <<>>),
+  AccDecl(LAMBDA lo, a : Fld("f", "nested", 8, 1, << <<lo, lo + 7>> >>, FALSE, <<>>, <<>>, a), <<>>, << [name |-> "Inner", n |-> 8] >>),
+  AccDecl(LAMBDA lo, a : ArrFld("uarb", 3, 0, lo, 3, <<4>>, a), <<>>, <<>>),
+  AccDecl(LAMBDA lo, a : ArrFld("bool", 1, 0, lo, 5, <<>>, a), <<>>, <<>>),
+  AccDecl(LAMBDA lo, a : ListFld("uarb", << <<lo + 9, lo + 10>>, <<lo, lo + 2>> >>, <<>>, <<>>, a), <<>>, <<>>),
+  AccDecl(LAMBDA lo, a : ListFld("inat", << <<lo + 12, lo + 15>>, <<lo, lo + 3>> >>, <<>>, <<>>, a), <<>>, <<>>),
+  AccDecl(LAMBDA lo, a : ListFld("uarb", << <<lo + 4, lo + 4>>, <<lo, lo>> >>, <<3>>, <<1>>, a), <<>>, <<>>),
+  (* names that stress with_/set_ name mangling *)
+  MkDecl(64, ZeroDef, << N(Scalar("uarb", 3, 0, "rw"), "with_parity"), N(Scalar("bool", 1, 8, "w"), "ends_with_crc"),
+                         N(Scalar("unat", 8, 16, "rw"), "set_point"), N(Scalar("uarb", 4, 32, "rw"), "r#type"),
+                         N(ArrFld("uarb", 2, 0, 40, 3, <<>>, "rw"), "with_set_with_") >>, <<>>, <<>>, FALSE)
+  >>
+
+---------------------------------------------------------------------------
+(* Q-b14: builder layouts for C14 (not necessarily sound: that is the point) *)
+B14(W, def, fields) == MkDecl(W, def, fields, <<>>, <<>>, FALSE)
+QB14 == <<
+  (* complete, disjoint, no default / with default *)
+  B14(8, <<>>, << N(Scalar("uarb", 4, 0, "rw"), "a"), N(Scalar("uarb", 3, 4, "rw"), "b"), N(Scalar("bool", 1, 7, "w"), "c") >>),
+  B14(8, ZeroDef, << N(Scalar("uarb", 4, 0, "rw"), "a"), N(Scalar("uarb", 3, 4, "rw"), "b"), N(Scalar("bool", 1, 7, "w"), "c") >>),
+  (* incomplete: without default no builder, with default builder *)
+  B14(8, <<>>, << N(Scalar("uarb", 4, 0, "rw"), "a"), N(Scalar("uarb", 3, 4, "rw"), "b") >>),
+  B14(8, ZeroDef, << N(Scalar("uarb", 4, 0, "rw"), "a"), N(Scalar("uarb", 3, 4, "rw"), "b") >>),
+  (* overlapping writable fields *)
+  B14(8, ZeroDef, << N(Scalar("uarb", 4, 0, "rw"), "a"), N(Scalar("uarb", 4, 3, "rw"), "b") >>),
+  B14(8, <<>>, << N(Scalar("unat", 8, 0, "rw"), "a"), N(Scalar("bool", 1, 7, "rw"), "b") >>),
+  (* overlapping array elements: adjacent, and only elements two apart *)
+  B14(16, ZeroDef, << N(ListFld("uarb", << <<0, 0>>, <<2, 2>> >>, <<3>>, <<2>>, "rw"), "a") >>),
+  B14(16, ZeroDef, << N(ListFld("uarb", << <<0, 0>>, <<4, 4>> >>, <<3>>, <<2>>, "rw"), "pair"), N(Scalar("bool", 1, 15, "rw"), "z") >>),
+  B14(16, ZeroDef, << N(ListFld("uarb", << <<0, 0>>, <<4, 4>> >>, <<2>>, <<2>>, "rw"), "pair"), N(Scalar("bool", 1, 15, "rw"), "z") >>),
+  (* self-overlapping range list *)
+  B14(16, ZeroDef, << N(ListFld("unat", << <<0, 3>>, <<2, 5>> >>, <<>>, <<>>, "rw"), "x") >>),
+  B14(16, ZeroDef, << N(ListFld("uarb", << <<4, 4>>, <<0, 3>>, <<4, 4>> >>, <<>>, <<>>, "rw"), "x"), N(Scalar("bool", 1, 9, "rw"), "y") >>),
+  (* read-only gap: the read-only field fills the hole (still incomplete) / aliases a complete cover (still complete) *)
+  B14(8, <<>>, << N(Scalar("uarb", 4, 0, "rw"), "a"), N(Scalar("uarb", 4, 4, "r"), "ro") >>),
+  B14(8, <<>>, << N(Scalar("uarb", 4, 0, "rw"), "a"), N(Scalar("uarb", 4, 4, "w"), "b"), N(Scalar("uarb", 3, 2, "r"), "ro") >>),
+  B14(8, ZeroDef, << N(Scalar("uarb", 4, 0, "rw"), "a"), N(Scalar("uarb", 4, 4, "r"), "ro") >>),
+  (* arbitrary-int base exactly covered / covered up to the storage width only in imagination *)
+  B14(12, <<>>, << N(Scalar("unat", 8, 0, "rw"), "a"), N(Scalar("uarb", 4, 8, "rw"), "b") >>),
+  B14(12, <<>>, << N(Scalar("unat", 8, 0, "rw"), "a"), N(Scalar("uarb", 3, 8, "rw"), "b") >>),
+  B14(24, <<>>, << N(ArrFld("unat", 8, 0, 0, 3, <<>>, "rw"), "bytes") >>),
+  (* no writable field at all *)
+  B14(8, ZeroDef, << N(Scalar("uarb", 4, 0, "r"), "ro") >>),
+  B14(8, <<>>, << N(Scalar("uarb", 4, 0, "r"), "ro") >>),
+  (* full-width single field *)
+  B14(128, <<>>, << N(Scalar("unat", 128, 0, "rw"), "all") >>),
+  B14(64, <<>>, << N(Scalar("inat", 64, 0, "w"), "all") >>)
+  >>
+
 QModel == AllModelDecls
 
 ---------------------------------------------------------------------------
@@ -210,9 +292,12 @@ CorpusByName(nm) ==
     [] nm = "bld"   -> Renumber(QBld)
     [] nm = "dbg"   -> Renumber(QDbg)
     [] nm = "model" -> Renumber(QModel)
+    [] nm = "acc"   -> Renumber(QAcc)
+    [] nm = "b14"   -> Renumber(QB14)
 
 Out == CorpusByName(IOEnv.CORPUS)
-ASSUME \A k \in 1..Len(Out) : Valid(Out[k]) \/ PrintT(<<"INVALID", k, Out[k]>>)
+ASSUME \A k \in 1..Len(Out) : (Valid(Out[k]) /\ \A j \in 1..Len(Out[k].enums) : EnumValid(Out[k].enums[j])) \/ PrintT(<<"INVALID", k, Out[k]>>)
+ASSUME IOEnv.CORPUS = "bld" => \A k \in 1..Len(Out) : BuilderSound(Out[k]) \/ PrintT(<<"INVALID (builder not sound)", k>>)
 ASSUME JsonSerialize(IOEnv.OUTFILE, Out)
 ASSUME PrintT(<<"CORPUS", IOEnv.CORPUS, Len(Out)>>)
 
